@@ -32,7 +32,7 @@ type TierCfg struct {
 	Skip     bool               `json:"skip"`
 	Sets     []map[string]int64 `json:"param_sets"`
 	Label    string             `json:"-"`
-	Logic string `json:"logic"`
+	Logic    string             `json:"logic"`
 }
 
 type Entry struct {
@@ -62,7 +62,7 @@ type Spec struct {
 	Units           []Unit            `json:"units"`
 	Native          []string          `json:"native_files"`
 	ParallelEntries int               `json:"parallel_entries"`
-	SQLSchema bool `json:"sql_schema"`
+	SQLSchema       bool              `json:"sql_schema"`
 	Gen             []string          `json:"generate"`
 	Goroutines      bool              `json:"goroutines"`
 }
